@@ -5,9 +5,16 @@
   after k bytes; `load` is yr_arena_load_stream on a stream with exactly that content.
   The statements hold for every arena with at most `maxBuffers` buffers, every allocator `alloc`,
   and EVERY cut point k in the stated region.
+
+  Second half (single-field corruptions): `patch img off bs` overwrites a field; the new value is ANY value of the
+  field's type other than the one stored.  `Hardened cfg` = the loader with every test of the current source tree
+  (`hardened_loaderCfg`: that is the configuration the translator reads from arena.c).  Magic, version, num_buffers,
+  every offset and every size but the last entry's are always refused (`corrupt_*`, with the error code); for the last
+  entry's size `size_change_accepted_iff` says exactly when the file is accepted (known finding F51).
 -/
 import YaraModel.Lemmas.ArenaExample
 import YaraModel.Lemmas.ArenaRoundTrip
+import YaraModel.Lemmas.ArenaLoadRules
 namespace YaraModel.Arena
 open YaraModel.Gen.ArenaLayout
 
@@ -165,5 +172,232 @@ theorem reloc_cut_accepted_witness :
       ∃ a', load loaderCfg exAlloc ((save a).take k) = .ok a' ∧
         ∃ r ∈ a.relocs, r ∉ a'.relocs ∧ ¬ ValidPtr a'.bufs (getSlot a' r) :=
   ⟨exArena, 72, exArena_wf, by decide, by decide, exLoaded, by rfl, ⟨0, 10⟩, by decide, by decide, by decide⟩
+
+/-! ## single-field corruptions of the header and of the buffer table -/
+
+/-- the loader of the source tree performs every validation the corruption theorems ask for (if an edit of arena.c
+    drops one — the offset cross-check, the guarded bounds test, the reference-target test, its `>=`, the refusal of a
+    trailing partial entry — the translator regenerates the constant and this stops being provable) -/
+theorem hardened_loaderCfg : Hardened loaderCfg := ⟨rfl, rfl, rfl, rfl, rfl⟩
+
+/-- **Magic.** Any of the four magic bytes replaced by any other byte: ERROR_INVALID_FILE. Every loader configuration. -/
+theorem corrupt_magic (cfg : LoaderCfg) (alloc : Nat → Nat) (a : Arena) (i : Nat) (hi : i < 4) (v : UInt8)
+    (hv : v ≠ (save a).getD i 0) : load cfg alloc (patch (save a) i [v]) = .error .invalidFile :=
+  save_patch_magic cfg alloc a i hi v hv
+
+/-- **Version.** The version byte replaced by any other byte (older or newer): ERROR_UNSUPPORTED_FILE_VERSION. -/
+theorem corrupt_version (cfg : LoaderCfg) (alloc : Nat → Nat) (a : Arena) (v : UInt8)
+    (hv : v ≠ (save a).getD hdrVersionOff 0) :
+    load cfg alloc (patch (save a) hdrVersionOff [v]) = .error .unsupportedFileVersion :=
+  save_patch_version cfg alloc a v hv
+
+/-- **num_buffers.** The buffer count replaced by any other byte: ERROR_INVALID_FILE above `maxBuffers`, otherwise
+    ERROR_CORRUPT_FILE (a larger count: the table read comes back short or the first offset no longer equals the table's
+    end; a smaller non-zero count: the first offset again; zero: the table is taken for relocation entries into an arena
+    without buffers).  Needs the offset cross-check. -/
+theorem corrupt_num_buffers (cfg : LoaderCfg) (hoffs : cfg.checksOffsets = true) (alloc : Nat → Nat) {a : Arena} (h : WF a) (v : UInt8)
+    (hv : v ≠ (save a).getD hdrNumBuffersOff 0) :
+    load cfg alloc (patch (save a) hdrNumBuffersOff [v]) = .error (if v.toNat > maxBuffers then .invalidFile else .corruptFile) :=
+  save_patch_numbufs cfg hoffs alloc h v hv
+
+/-- **Offset.** The 64-bit offset of any table entry replaced by any other 64-bit value: ERROR_CORRUPT_FILE. -/
+theorem corrupt_offset (cfg : LoaderCfg) (hoffs : cfg.checksOffsets = true) (alloc : Nat → Nat) (a : Arena)
+    (hn : a.bufs.length ≤ maxBuffers) (i : Nat) (hi : i < a.bufs.length) (v : Nat) (hv : v < 2 ^ 64)
+    (hne : v ≠ rdLE tblOffsetSize (save a) (offsetFieldAt i)) :
+    load cfg alloc (patch (save a) (offsetFieldAt i) (leBytes 8 v)) = .error .corruptFile :=
+  save_patch_offset cfg hoffs alloc a hn i hi v hv hne
+
+/-- **Size, not the last entry.** The 32-bit size of any table entry but the last replaced by any other 32-bit value:
+    ERROR_CORRUPT_FILE (the next entry's offset is no longer the running sum). -/
+theorem corrupt_size_not_last (cfg : LoaderCfg) (hoffs : cfg.checksOffsets = true) (alloc : Nat → Nat) (a : Arena)
+    (hn : a.bufs.length ≤ maxBuffers) (i : Nat) (hi : i + 1 < a.bufs.length) (z : Nat) (hz : z < 2 ^ 32)
+    (hne : z ≠ rdLE tblSizeSize (save a) (sizeFieldAt i)) :
+    load cfg alloc (patch (save a) (sizeFieldAt i) (leBytes 4 z)) = .error .corruptFile :=
+  save_patch_size_inner cfg hoffs alloc a hn i hi z hz hne
+
+/-- **Size of the last entry, raised.** With `len` the last buffer's size and `z > len` the new value: the file is
+    accepted if and only if `z − len` is a multiple of 8, at most 8 × (number of relocation entries), and the loader's own
+    allocation of `z` bytes succeeds (`CapOk`: z ≤ 10485·2^18); then the last buffer has swallowed the first
+    `(z − len)/8` entries and only the others are applied — the slots of the swallowed entries keep their on-disk
+    references (same damage as F9).  Otherwise ERROR_CORRUPT_FILE (ERROR_INSUFFICIENT_MEMORY if the allocation fails). -/
+theorem corrupt_size_last_raised (cfg : LoaderCfg) (hh : Hardened cfg) (alloc : Nat → Nat) (hnz : ∀ i, alloc i ≠ 0) {a : Arena} (h : WF a)
+    (hs2 : ∀ b ∈ a.bufs, b.data.length ≤ 2 ^ 31) (m : Nat) (hm : a.bufs.length = m + 1) (z : Nat) (hz : z < 2 ^ 32)
+    (hgt : (a.bufAt m).data.length < z) :
+    ((∃ A, load cfg alloc (patch (save a) (sizeFieldAt m) (leBytes 4 z)) = .ok A) ↔
+      ((z - (a.bufAt m).data.length) % 8 = 0 ∧ z - (a.bufAt m).data.length ≤ 8 * a.relocs.length ∧ CapOk z)) ∧
+    (((z - (a.bufAt m).data.length) % 8 = 0 ∧ z - (a.bufAt m).data.length ≤ 8 * a.relocs.length ∧ CapOk z) →
+      ∃ A, load cfg alloc (patch (save a) (sizeFieldAt m) (leBytes 4 z)) = .ok A ∧
+        A.relocs = a.relocs.drop ((z - (a.bufAt m).data.length) / 8)) ∧
+    (¬ ((z - (a.bufAt m).data.length) % 8 = 0 ∧ z - (a.bufAt m).data.length ≤ 8 * a.relocs.length ∧ CapOk z) →
+      load cfg alloc (patch (save a) (sizeFieldAt m) (leBytes 4 z)) =
+        .error (if CapOk z then .corruptFile else .insufficientMemory)) :=
+  save_patch_size_raised cfg hh alloc hnz h hs2 m hm z hz hgt
+
+/-- **Size of the last entry, lowered** to `z < len`: header, table and the other bodies are read as before, the last
+    buffer keeps its first `z` bytes, and its remaining `len − z` bytes are fed to the relocation loop ahead of the real
+    entries.  So the verdict is the loop's verdict on those bytes (it depends on the buffer's contents) … -/
+theorem corrupt_size_last_lowered (cfg : LoaderCfg) (alloc : Nat → Nat) {a : Arena} (hn : a.bufs.length ≤ maxBuffers)
+    (hs2 : ∀ b ∈ a.bufs, b.data.length ≤ 2 ^ 31) (m : Nat) (hm : a.bufs.length = m + 1) (z : Nat)
+    (hlt : z < (a.bufAt m).data.length) :
+    load cfg alloc (patch (save a) (sizeFieldAt m) (leBytes 4 z)) =
+      applyRelocs cfg { bufs := loadedBufs alloc 0 ((bodies (toRefs a)).take m ++ [((bodies (toRefs a)).getD m []).take z]),
+                        relocs := [], init := loadInitialSize }
+        (((bodies (toRefs a)).getD m []).drop z ++ relocBytes a.relocs) :=
+  save_patch_size_lowered cfg alloc hn hs2 m hm z hlt
+
+/-- … and it is ERROR_CORRUPT_FILE unless a whole number of 8-byte entries was cut off. -/
+theorem corrupt_size_last_lowered_dvd (cfg : LoaderCfg) (hh : Hardened cfg) (alloc : Nat → Nat) {a : Arena} (hn : a.bufs.length ≤ maxBuffers)
+    (hs2 : ∀ b ∈ a.bufs, b.data.length ≤ 2 ^ 31) (m : Nat) (hm : a.bufs.length = m + 1) (z : Nat)
+    (hlt : z < (a.bufAt m).data.length) :
+    (∃ A', load cfg alloc (patch (save a) (sizeFieldAt m) (leBytes 4 z)) = .ok A' ∧ ((a.bufAt m).data.length - z) % 8 = 0) ∨
+      load cfg alloc (patch (save a) (sizeFieldAt m) (leBytes 4 z)) = .error .corruptFile :=
+  save_patch_size_lowered_dvd cfg hh alloc hn hs2 m hm z hlt
+
+/-- **Every size change, every value: exactly when the loader accepts** (the precise extent of known finding F51).
+    For a well-formed arena (buffers ≤ 2 GiB), the fully checked loader, any entry `i` and any 32-bit value `z` other than
+    the stored size: the corrupted file is accepted iff `i` is the LAST entry and either
+    (raised) `z − len` is a positive multiple of 8 not exceeding 8 × #relocation-entries and `z` bytes can be allocated, or
+    (lowered) `len − z` is a multiple of 8 and the bytes cut off the last buffer, read as relocation entries and followed
+    by the real ones, all pass the loader's tests against the shortened buffer. -/
+theorem size_change_accepted_iff (cfg : LoaderCfg) (hh : Hardened cfg) (alloc : Nat → Nat) (hnz : ∀ i, alloc i ≠ 0) {a : Arena} (h : WF a)
+    (hs2 : ∀ b ∈ a.bufs, b.data.length ≤ 2 ^ 31) (i : Nat) (hi : i < a.bufs.length) (z : Nat) (hz : z < 2 ^ 32)
+    (hne : z ≠ rdLE tblSizeSize (save a) (sizeFieldAt i)) :
+    (∃ A, load cfg alloc (patch (save a) (sizeFieldAt i) (leBytes 4 z)) = .ok A) ↔
+      i + 1 = a.bufs.length ∧
+        (((a.bufAt i).data.length < z ∧ (z - (a.bufAt i).data.length) % 8 = 0 ∧
+            z - (a.bufAt i).data.length ≤ 8 * a.relocs.length ∧ CapOk z) ∨
+         (z < (a.bufAt i).data.length ∧ ((a.bufAt i).data.length - z) % 8 = 0 ∧
+            ∃ A, applyRelocs cfg { bufs := loadedBufs alloc 0 ((bodies (toRefs a)).take i ++ [((bodies (toRefs a)).getD i []).take z]),
+                                   relocs := [], init := loadInitialSize }
+                  (((bodies (toRefs a)).getD i []).drop z ++ relocBytes a.relocs) = .ok A)) := by
+  have hlen31 := hs2 _ (mem_iff_getD.2 ⟨i, hi, rfl⟩)
+  have hlen31' : (a.bufAt i).data.length ≤ 2 ^ 31 := hlen31
+  rw [save_size_field a i hi, Nat.mod_eq_of_lt (by omega)] at hne
+  by_cases hlast : i + 1 = a.bufs.length
+  · have hm : a.bufs.length = i + 1 := hlast.symm
+    rcases Nat.lt_or_gt_of_ne hne with hlt | hgt
+    · -- lowered
+      rw [corrupt_size_last_lowered cfg alloc h.count hs2 i hm z hlt]
+      constructor
+      · intro hok
+        refine ⟨hlast, Or.inr ⟨hlt, ?_, hok⟩⟩
+        rcases corrupt_size_last_lowered_dvd cfg hh alloc h.count hs2 i hm z hlt with ⟨_, _, h8⟩ | herr
+        · exact h8
+        · rw [corrupt_size_last_lowered cfg alloc h.count hs2 i hm z hlt] at herr
+          obtain ⟨A, hA⟩ := hok
+          rw [hA] at herr; cases herr
+      · rintro ⟨_, ⟨hc, _⟩ | ⟨_, _, hok⟩⟩
+        · omega
+        · exact hok
+    · -- raised
+      have ⟨hiff, _, _⟩ := corrupt_size_last_raised cfg hh alloc hnz h hs2 i hm z hz hgt
+      rw [hiff]
+      constructor
+      · intro hc; exact ⟨hlast, Or.inl ⟨hgt, hc⟩⟩
+      · rintro ⟨_, ⟨_, hc⟩ | ⟨hc, _⟩⟩
+        · exact hc
+        · omega
+  · have hi' : i + 1 < a.bufs.length := by omega
+    have hs : z ≠ rdLE tblSizeSize (save a) (sizeFieldAt i) := by
+      rw [save_size_field a i hi, Nat.mod_eq_of_lt (by omega)]; exact hne
+    rw [corrupt_size_not_last cfg hh.offs alloc a h.count i hi' z hz hs]
+    constructor
+    · rintro ⟨A, hA⟩; cases hA
+    · rintro ⟨hc, _⟩; exact absurd hc hlast
+
+/-- **Witness, raised size (F51).** The example arena (last buffer empty, two relocation entries): the last size raised
+    from 0 to 8 is accepted by the loader of the source tree; the first registered slot is no longer registered and holds
+    its on-disk reference instead of a pointer. -/
+theorem size_raised_accepted_witness :
+    ∃ (a : Arena) (z : Nat), WF a ∧ z ≠ rdLE tblSizeSize (save a) (sizeFieldAt (a.bufs.length - 1)) ∧
+      ∃ A', load loaderCfg exAlloc (patch (save a) (sizeFieldAt (a.bufs.length - 1)) (leBytes 4 z)) = .ok A' ∧
+        ∃ r ∈ a.relocs, r ∉ A'.relocs ∧ ¬ ValidPtr A'.bufs (getSlot A' r) := by
+  have c : (match load loaderCfg exAlloc (patch (save exArena) (sizeFieldAt 2) (leBytes 4 8)) with
+      | .ok A' => decide ((⟨0, 0⟩ : Ref) ∉ A'.relocs ∧ ¬ ValidPtr A'.bufs (getSlot A' ⟨0, 0⟩))
+      | .error _ => false) = true := by decide +kernel
+  cases hl : load loaderCfg exAlloc (patch (save exArena) (sizeFieldAt 2) (leBytes 4 8)) with
+  | error e => rw [hl] at c; cases c
+  | ok A' =>
+    rw [hl] at c
+    simp only [decide_eq_true_eq] at c
+    exact ⟨exArena, 8, exArena_wf, by decide +kernel, A', hl, ⟨0, 0⟩, by decide, c.1, c.2⟩
+
+/-- **Witness, lowered size.** `exArena2`: the last buffer's size lowered from 12 to 4; its last 8 bytes read as the entry
+    (buffer 0, offset 0), which passes; the real entry for the same slot then finds the pointer just written, takes it for
+    the reference (0, 0) and passes too: accepted, with the slot registered twice and a NULL pointer turned into a
+    non-NULL one. -/
+theorem size_lowered_accepted_witness :
+    ∃ A', load loaderCfg exAlloc (patch (save exArena2) (sizeFieldAt 1) (leBytes 4 4)) = .ok A' ∧
+      WF exArena2 ∧ getSlot exArena2 ⟨0, 0⟩ = 0 ∧ getSlot A' ⟨0, 0⟩ ≠ 0 ∧ A'.relocs = [⟨0, 0⟩, ⟨0, 0⟩] := by
+  have c : (match load loaderCfg exAlloc (patch (save exArena2) (sizeFieldAt 1) (leBytes 4 4)) with
+      | .ok A' => decide (getSlot A' ⟨0, 0⟩ ≠ 0 ∧ A'.relocs = [⟨0, 0⟩, ⟨0, 0⟩])
+      | .error _ => false) = true := by decide +kernel
+  cases hl : load loaderCfg exAlloc (patch (save exArena2) (sizeFieldAt 1) (leBytes 4 4)) with
+  | error e => rw [hl] at c; cases c
+  | ok A' =>
+    rw [hl] at c
+    simp only [decide_eq_true_eq] at c
+    exact ⟨A', rfl, exArena2_wf, by decide, c.1, c.2⟩
+
+/-- … while the same size lowered from 12 to 8 (4 bytes cut) or to 0 (12 bytes cut) is refused: not a whole number of
+    entries (instances of `corrupt_size_last_lowered_dvd`) -/
+example : load loaderCfg exAlloc (patch (save exArena2) (sizeFieldAt 1) (leBytes 4 8)) = .error .corruptFile ∧
+    load loaderCfg exAlloc (patch (save exArena2) (sizeFieldAt 1) (leBytes 4 0)) = .error .corruptFile := by
+  constructor
+  · rcases corrupt_size_last_lowered_dvd loaderCfg hardened_loaderCfg exAlloc (a := exArena2) (by decide) (by decide) 1 rfl 8
+      (by decide) with ⟨_, _, h8⟩ | h
+    · exact absurd h8 (by decide)
+    · exact h
+  · rcases corrupt_size_last_lowered_dvd loaderCfg hardened_loaderCfg exAlloc (a := exArena2) (by decide) (by decide) 1 rfl 0
+      (by decide) with ⟨_, _, h8⟩ | h
+    · exact absurd h8 (by decide)
+    · exact h
+
+/-- the hypotheses of the corruption theorems are satisfiable, and the refusals are what the theorems say, on the example
+    arena: a magic byte, the version, the buffer count (to 2, to 0 and to 200), the offset of entry 1, the size of entry 0 -/
+example : load loaderCfg exAlloc (patch (save exArena) 3 [0x42]) = .error .invalidFile ∧
+    load loaderCfg exAlloc (patch (save exArena) hdrVersionOff [20]) = .error .unsupportedFileVersion ∧
+    load loaderCfg exAlloc (patch (save exArena) hdrNumBuffersOff [2]) = .error .corruptFile ∧
+    load loaderCfg exAlloc (patch (save exArena) hdrNumBuffersOff [0]) = .error .corruptFile ∧
+    load loaderCfg exAlloc (patch (save exArena) hdrNumBuffersOff [200]) = .error .invalidFile ∧
+    load loaderCfg exAlloc (patch (save exArena) (offsetFieldAt 1) (leBytes 8 61)) = .error .corruptFile ∧
+    load loaderCfg exAlloc (patch (save exArena) (sizeFieldAt 0) (leBytes 4 26)) = .error .corruptFile :=
+  ⟨corrupt_magic _ _ _ 3 (by decide) _ (by decide +kernel), corrupt_version _ _ _ _ (by decide +kernel),
+   corrupt_num_buffers _ rfl _ exArena_wf 2 (by decide +kernel), corrupt_num_buffers _ rfl _ exArena_wf 0 (by decide +kernel),
+   corrupt_num_buffers _ rfl _ exArena_wf 200 (by decide +kernel),
+   corrupt_offset _ rfl _ _ (by decide) 1 (by decide) 61 (by decide) (by decide +kernel),
+   corrupt_size_not_last _ rfl _ _ (by decide) 0 (by decide) 26 (by decide) (by decide +kernel)⟩
+
+/-! ## what rules.c adds after a successful arena load -/
+
+/-- **yr_rules_load_stream = arena load + one test.** For ANY stream: after `yr_arena_load_stream` succeeded,
+    `yr_rules_from_arena` only asks for the summary buffer (section 11): `yr_arena_get_ptr` asserts 11 < num_buffers
+    and a NULL result is ERROR_CORRUPT_FILE; that outcome is a function of two fields of the file alone — the buffer
+    count and the size field of table entry 11 (a buffer is unallocated exactly when its size field is 0). -/
+theorem rules_summary_test (cfg : LoaderCfg) (alloc : Nat → Nat) (hnz : ∀ i, alloc i ≠ 0) (s : Bytes) :
+    loadRules cfg alloc s =
+      match load cfg alloc s with
+      | .error e => .error e
+      | .ok A' =>
+        if (s.getD hdrNumBuffersOff 0).toNat ≤ summarySection then .error .assertFail
+        else if rdLE tblSizeSize s (sizeFieldAt summarySection) = 0 then .error .corruptFile
+        else .ok A' :=
+  loadRules_eq cfg alloc hnz s
+
+/-- **Can rules.c refuse what the arena loader let through after a single-field corruption?** Header fields, the buffer
+    count, offsets and inner sizes never get that far (`corrupt_*`).  For a size change that the arena loader accepted
+    (so: the last entry, `size_change_accepted_iff`) on an image with a non-empty summary buffer: the summary test fires
+    exactly when the overwritten field is the summary buffer's own size and the new value is 0 — which the arena loader
+    accepts only if the summary's length is a multiple of 8 (`corrupt_size_last_lowered_dvd`; sizeof(YR_SUMMARY) is 12,
+    so for files written by the compiler the test is never what rejects a single-field corruption).  rules.c has no
+    other test: a summary cut to 4 bytes is used as is (its counters read uninitialised capacity). -/
+theorem rules_after_size_corruption (cfg : LoaderCfg) (alloc : Nat → Nat) (hnz : ∀ i, alloc i ≠ 0) (a : Arena)
+    (hn : a.bufs.length ≤ maxBuffers) (hsum : summarySection < a.bufs.length)
+    (hsz : (a.bufAt summarySection).data.length ≠ 0) (hsz2 : (a.bufAt summarySection).data.length < 2 ^ 32)
+    (i : Nat) (hi : i < a.bufs.length) (z : Nat) (hz : z < 2 ^ 32) (A' : Arena)
+    (hA : load cfg alloc (patch (save a) (sizeFieldAt i) (leBytes 4 z)) = .ok A') :
+    loadRules cfg alloc (patch (save a) (sizeFieldAt i) (leBytes 4 z)) =
+      if i = summarySection ∧ z = 0 then .error .corruptFile else .ok A' :=
+  loadRules_after_size_patch cfg alloc hnz a hn hsum hsz hsz2 i hi z hz A' hA
 
 end YaraModel.Arena
